@@ -50,6 +50,10 @@ func runCase(w *world, k kase, check string, verbose bool) [][2]string {
 		fmt.Println(desc())
 	}
 	if !end.Applied {
+		if k.Menu == "state" {
+			lastOutcome = "state-field-not-shiftable" // e.g. a per-party map without that entry, or a nil value
+			return nil
+		}
 		add("harness|slot-not-reached", desc())
 		return vs
 	}
@@ -84,6 +88,18 @@ func runCase(w *world, k kase, check string, verbose bool) [][2]string {
 			add(fmt.Sprintf("wrong-result-accepted|%s|%s", cls, e[0]), e[1]+"\n"+desc())
 		}
 	case "C04":
+		if k.Menu == "state" && strings.HasSuffix(k.Path, "[self]") && k.Op == "state+1-then-restore" &&
+			(strings.Contains(k.Path, "presign3.GammaShare") || strings.Contains(k.Path, "presign3.SecretECDSA") || strings.Contains(k.Path, "presign3.KShare")) {
+			// delta or chi contribution inconsistent while the individual proofs pass: every honest signer must single out the deviator
+			for _, id := range honest {
+				pe := end.Parties[id]
+				if pe.Status != "error" || len(pe.Culprits) != 1 || pe.Culprits[0] != k.Deviator {
+					add(fmt.Sprintf("blame|%s|inconsistent-presigner-not-singled-out|%s", k.Scenario.Proto, pe.Status),
+						fmt.Sprintf("party %s ends with %s %v %q although %s's contribution is inconsistent\n%s", id, pe.Status, pe.Culprits, pe.Err, k.Deviator, desc()))
+					break
+				}
+			}
+		}
 		for _, e := range judgeBlame(w, k, end, honest) {
 			add(fmt.Sprintf("blame|%s|%s", k.Scenario.Proto+"|"+e[0], errClassOf(e)), e[1]+"\n"+desc())
 		}
@@ -253,6 +269,11 @@ func consistency(views map[string]*oracle.View, w *world) [][2]string {
 // judgeBlame: soundness of culprit lists.
 func judgeBlame(w *world, k kase, end *faults.End, honest []party.ID) [][2]string {
 	var out [][2]string
+	if w.spec.Two {
+		// the two-party handler reports plain errors without a culprit list: with one peer the sender is
+		// implicit, so there is nothing to attribute; only "names an honest party" could be wrong, and it names nobody
+		return nil
+	}
 	aborted := map[party.ID]bool{}
 	for _, id := range w.spec.IDs {
 		if end.Parties[id].Status == "error" {
